@@ -364,6 +364,9 @@ Proof.
   intros Eu HX H2 HF HG T1 D1 N1 Rn. exists mu'. split; auto. split.
   - constructor; auto.
     + apply (kx_ready s' mu' HX).
+    + intros j c Hc. split; [apply (kx_dfin s' mu' HX); apply (Rfin _ _ _ Hc)|apply HF; auto].
+    + intros jh j c ch Hjh H1' H2'. destruct (HG jh j c ch Hjh H1' H2') as [E|E]; [left; auto|right; split; auto].
+      apply (kx_dfin s' mu' HX). apply (Rfin _ _ _ H1').
     + intros j [Hj | ->]; [|exact T1]. apply (kx_tight s' mu' HX j Hj).
   - intros j Hj. split; [apply (kx_dfin s' mu' HX); auto|apply (kx_asg s' mu' HX); auto].
 Qed.
